@@ -242,21 +242,59 @@ func checkC04(c *core.Ctx) {
 // defaultDrains checks the statement order of the stream dispatch's default arm.
 func (gr *genRun) defaultDrains(rf *RecFacts) bool {
 	fd := rf.M[mSR].Decl
-	ok := false
-	ast.Inspect(fd, func(n ast.Node) bool {
-		cc, is := n.(*ast.CaseClause)
-		if !is || cc.List != nil {
-			return true
+	base := rf.M[mSR].Lim.BaseVar
+	// the statements run for a discriminator/index the reader does not know:
+	// the default arm of the dispatch, or — when the dispatch has none and is
+	// not inside a loop — what follows the switch
+	var unknown []ast.Stmt
+	found := false
+	var visit func(list []ast.Stmt, inLoop bool)
+	visit = func(list []ast.Stmt, inLoop bool) {
+		for i, st := range list {
+			switch x := st.(type) {
+			case *ast.ForStmt:
+				visit(x.Body.List, true)
+			case *ast.SwitchStmt:
+				if x.Tag == nil || found {
+					continue
+				}
+				isDispatch := false
+				ast.Inspect(x.Tag, func(n ast.Node) bool {
+					if call, ok := n.(*ast.CallExpr); ok && strings.HasSuffix(wire.Canon(call.Fun), "ReadByte") {
+						isDispatch = true
+					}
+					return true
+				})
+				if !isDispatch {
+					continue
+				}
+				found = true
+				hasDefault := false
+				for _, cc := range x.Body.List {
+					if cl := cc.(*ast.CaseClause); cl.List == nil {
+						hasDefault = true
+						unknown = cl.Body
+					}
+				}
+				if !hasDefault && !inLoop {
+					unknown = list[i+1:]
+				}
+			}
 		}
-		var seq []string
-		for _, s := range cc.Body {
-			seq = append(seq, strings.Join(strings.Fields(rf.GF.Snippet(s)), " "))
-		}
-		base := rf.M[mSR].Lim.BaseVar
-		ok = len(seq) == 3 && seq[0] == "r.Drain()" && seq[1] == "r.Reader = "+base && seq[2] == "return r.Err"
+	}
+	visit(fd.Body.List, false)
+	if !found || len(unknown) != 3 {
 		return false
-	})
-	return ok
+	}
+	es, ok1 := unknown[0].(*ast.ExprStmt)
+	as, ok2 := unknown[1].(*ast.AssignStmt)
+	rs, ok3 := unknown[2].(*ast.ReturnStmt)
+	if !ok1 || !ok2 || !ok3 {
+		return false
+	}
+	return wire.Canon(es.X) == "r.Drain()" &&
+		len(as.Lhs) == 1 && len(as.Rhs) == 1 && wire.Canon(as.Lhs[0]) == "r.Reader" && wire.Canon(as.Rhs[0]) == base &&
+		len(rs.Results) == 1 && wire.Canon(rs.Results[0]) == "r.Err"
 }
 
 // ---- C06 / C07 (generator part) -------------------------------------------
@@ -610,7 +648,7 @@ func optionReadSites(c *core.Ctx, gr *genRun) {
 			return true
 		})
 	}
-	c.Floor("option_reads", 20)
+	c.Floor("option_reads", 8)
 	c.Floor("option_fields", 5)
 }
 
